@@ -142,11 +142,18 @@ Proof.
   destruct (regex_dot_patched_b pool r text Hwf E) as [g [Hr Hok]]. now exists text, g.
 Qed.
 
-Theorem regex_dot_pinned_total pool r :
+Theorem regex_dot_old_total pool r :
   rx_total_b pool r = true -> rx_wf_b pool r = true -> known_rx_all pool r = false ->
-  exists text g, of_regex pool r = Ok text /\ read text = Some g
+  exists text g, of_regex_with old pool r = Ok text /\ read text = Some g
                  /\ regex_ok g (spec_pool pool) (spec_items r).
 Proof.
-  intros Ht Hwf Hk. destruct (of_regex_total pinned pool r Ht) as [text E].
-  destruct (regex_dot_pinned_b pool r text Hwf Hk E) as [g [Hr Hok]]. now exists text, g.
+  intros Ht Hwf Hk. destruct (of_regex_total old pool r Ht) as [text E].
+  destruct (regex_dot_old_b pool r text Hwf Hk E) as [g [Hr Hok]]. now exists text, g.
 Qed.
+
+(** the code as it is now: no exception *)
+Theorem regex_dot_current_total pool r :
+  rx_total_b pool r = true -> rx_wf_b pool r = true ->
+  exists text g, of_regex pool r = Ok text /\ read text = Some g
+                 /\ regex_ok g (spec_pool pool) (spec_items r).
+Proof. intros Ht Hwf. rewrite of_regex_current. now apply regex_dot_patched_total. Qed.
